@@ -73,13 +73,13 @@ def shooting_check(cfg, q, out):
     """returns number of predictions checked"""
     spec = np.abs(np.fft.rfft(q.sigma)); tail = spec[-3:].max() / max(spec.max(), 1e-300)
     spec2 = np.abs(np.fft.rfft(q.curvature)); tail = max(tail, spec2[-3:].max() / max(spec2.max(), 1e-300))
-    if not tail < 1e-9:
-        return 0
     from scipy.optimize import brentq
     F, N = shooting_iota(cfg)
     n = 1
     if N != q.helicity:
         out.append(dict(key='shooting:helicity', what='helicity %r differs from sG*spsi*(winding number of the normal computed from the coefficients) = %d' % (q.helicity, N), cfg=jsonable(cfg)))
+    if not tail < 1e-9:
+        return n
     want_iN = q.iota + N * cfg['nfp']                 # the iotaN the shooting solution must have if the returned iota is right
     d = 1e-3 * max(1.0, abs(want_iN))
     try:
